@@ -678,6 +678,7 @@ def opt_parts(x):
 
 def parse_spec_clauses(p, s, result):
     """What _parse_color_<p>(s) returns for a description s of at most four characters' relevance."""
+    s = cur().force(s)  # an optional str argument (`x or y`) is a str here
     n = cs_len(s)
     none, rv = opt_parts(result)
     c0 = cs_at(s, 0)
@@ -764,7 +765,8 @@ def cstr_call_real(ip, st, f, args, kwargs):
         return j
     if f is hash and len(args) == 1 and isinstance(args[0], tuple) and len(args[0]) == 2 and isinstance(args[0][0], type):
         # hash of a (class, int) pair: some function of the pair (all that is known of hash())
-        return mk_int(HASH_PAIR(z3.IntVal(V.atom_code("class:" + args[0][0].__qualname__)), V._z(args[0][1])))
+        x = args[0][1]
+        return mk_int(HASH_PAIR(z3.IntVal(V.atom_code("class:" + args[0][0].__qualname__)), V._z(x.to_int() if hasattr(x, "to_int") else x)))
     return NotImplemented
 
 
@@ -867,17 +869,200 @@ class true_to_256:
 
 # =============================================================================================================
 # AttrSpec: the packed 62-bit word `_AttrSpec__value`
+#
+# Integer div/mod (and BitVec<->Int conversions) on a 62-bit word make queries that z3 does not finish, so the word
+# is modelled STRUCTURALLY: BitWord = one small integer per bit field of the layout the module's own mask constants
+# define (foreground number: bits 0-23, background number: bits 24-47, one field per flag bit 48-61).  The bit
+# operations the class performs are given field by field (each rule is exact for words of that layout, and
+# Unsupported where a constant mask would cut through a field); cross-checked against CPython's int operators by
+# the static check `bitword-operations-agree-with-cpython`.
+#   w & m (m < 0, "clear fields")  -> BitWord;   w & m (m >= 0, "extract fields") -> the plain int value of those fields
+#   w | x  (x a BitWord, a constant, or an int provably inside the foreground / background number field) -> BitWord
+#   w == x, w != x, bool(w), hash((cls, w)) via the word's integer value  sum field * 2**lo
 # =============================================================================================================
-from pyvc.interp import and_mask_formula, or_within_mask  # noqa: E402
+from pyvc.interp import and_mask_formula  # noqa: E402,F401
 
 
 def K(name):
     return real_const(name)
 
 
+LAYOUT = ((0, 24), (24, 24)) + tuple((k, 1) for k in range(48, 62))  # (lowest bit, width) of every field
+FG, BG = 0, 1
+
+
+def _layout_matches_module():
+    """The layout above is the one the module's constants define."""
+    ok = K("_FG_COLOR_MASK") == 2**24 - 1 and K("_BG_COLOR_MASK") == (2**24 - 1) << 24 and K("_BG_SHIFT") == 24
+    flags = ["_FG_BASIC_COLOR", "_FG_HIGH_COLOR", "_FG_TRUE_COLOR", "_BG_BASIC_COLOR", "_BG_HIGH_COLOR", "_BG_TRUE_COLOR", "_HIGH_88_COLOR",
+             "_HIGH_TRUE_COLOR", "_STANDOUT", "_UNDERLINE", "_BOLD", "_BLINK", "_ITALICS", "_STRIKETHROUGH"]
+    bits = sorted(K(n).bit_length() - 1 for n in flags)
+    ok = ok and all(K(n) == 1 << (K(n).bit_length() - 1) for n in flags) and bits == list(range(48, 62))
+    return "bit-field-layout-is-the-modules", ok, f"flag bits {bits}"
+
+
+def bit_index(name):
+    """Index in LAYOUT of the one-bit field of the module constant `name`."""
+    return 2 + (K(name).bit_length() - 1 - 48)
+
+
+class BitWord(ModelObj):
+    def __init__(self, parts):
+        self.parts = list(parts)
+
+    @staticmethod
+    def of_int(x):
+        return BitWord([(x >> lo) & ((1 << w) - 1) for lo, w in LAYOUT])
+
+    @staticmethod
+    def lift(st, x):
+        """A BitWord for x: a BitWord, a plain int in 0..2**62-1, or a symbolic int provably confined to the
+        foreground number field (0 <= x < 2**24) or the background number field (a multiple of 2**24 below 2**48)."""
+        if isinstance(x, BitWord):
+            return x
+        if isinstance(x, (bool, SBool)):
+            raise Unsupported("a bool as a bit word")
+        if _isint(x):
+            if not 0 <= x < 2**62:
+                raise Unsupported("bit word outside 0..2**62-1")
+            return BitWord.of_int(x)
+        if isinstance(x, SInt):
+            zero = [0] * len(LAYOUT)
+            r, _m = st._check(z3.Not(V._zb(both(0 <= x, x < 2**24))), st.cfg.branch_timeout_ms)
+            if r == z3.unsat:
+                return BitWord([x] + zero[1:])
+            r, _m = st._check(z3.Not(V._zb(both(0 <= x, x < 2**48, x % 2**24 == 0))), st.cfg.branch_timeout_ms)
+            if r == z3.unsat:
+                return BitWord([0, x // 2**24] + zero[2:])
+        raise Unsupported(f"cannot place {x!r} in the bit-field layout")
+
+    def to_int(self):
+        total = 0
+        for (lo, _w), p in zip(LAYOUT, self.parts):
+            total = total + p * (1 << lo)
+        return total
+
+    def and_const(self, m):
+        out = []
+        for (lo, w), p in zip(LAYOUT, self.parts):
+            full = (1 << w) - 1
+            fm = (m >> lo) & full
+            if fm == full:
+                out.append(p)
+            elif fm == 0:
+                out.append(0)
+            elif _isint(p):
+                out.append(p & fm)
+            else:
+                raise Unsupported(f"mask {m:#x} cuts through the bit field at bit {lo}")
+        if m >= 0 and m >> 62:
+            raise Unsupported("mask beyond the 62-bit layout")
+        return BitWord(out)
+
+    def or_word(self, st, o):
+        out = []
+        for (lo, w), p, q in zip(LAYOUT, self.parts, o.parts):
+            if _isint(p) and _isint(q):
+                out.append(p | q)
+            elif _isint(q) and q == 0:
+                out.append(p)
+            elif _isint(p) and p == 0:
+                out.append(q)
+            elif w == 1:
+                out.append(imax(p, q))
+            else:
+                for a, b in ((p, q), (q, p)):
+                    r, _m = st._check(z3.Not(V._zb(a == 0)), st.cfg.branch_timeout_ms)
+                    if r == z3.unsat:
+                        out.append(b)
+                        break
+                else:
+                    raise Unsupported(f"| of two possibly non-zero values of the number field at bit {lo}")
+        return BitWord(out)
+
+    # ---- dispatch
+    def py_binop(self, ip, st, op, other, reflected):
+        import ast as _ast
+
+        if isinstance(op, _ast.BitAnd):
+            if _isint(other):
+                r = self.and_const(other)
+                return r if other < 0 else r.to_int()
+            if isinstance(other, BitWord) and all(_isint(p) for p in other.parts):
+                return self.and_const(other.to_int()).to_int()
+        if isinstance(op, _ast.BitOr):
+            return self.or_word(st, BitWord.lift(st, other))
+        return NotImplemented
+
+    def py_truth(self, st):
+        return either(*[p != 0 for p in self.parts])
+
+    def __eq__(self, o):
+        if isinstance(o, (bool, SBool)) or not (isinstance(o, (BitWord, SInt)) or _isint(o)):
+            return False
+        if isinstance(o, SInt):
+            return self.to_int() == o
+        if _isint(o) and not 0 <= o < 2**62:
+            return False
+        o = o if isinstance(o, BitWord) else BitWord.of_int(o)
+        return both(*[p == q for p, q in zip(self.parts, o.parts)])
+
+    def __ne__(self, o):
+        return neg(self.__eq__(o))
+
+    __hash__ = object.__hash__
+
+    def py_concretize(self, model):
+        v = 0
+        for (lo, _w), p in zip(LAYOUT, self.parts):
+            v += (p if _isint(p) else model.eval(V._z(p), model_completion=True).as_long()) << lo
+        return hex(v)
+
+    def __repr__(self):
+        return f"BitWord({self.parts!r})"
+
+
+class WordShape(Shape):
+    def fresh(self, st, hint):
+        parts = []
+        for lo, w in LAYOUT:
+            p = st.fresh_int(f"{hint}@{lo}")
+            st.assume(both(0 <= p, p < (1 << w)))
+            parts.append(p)
+        return BitWord(parts)
+
+    def __repr__(self):
+        return "Word62"
+
+
+def _xcheck_bitword():
+    """BitWord's rules on concrete words against CPython's &, |, ==, bool."""
+    import random
+
+    rnd = random.Random(18)
+    masks = [K(n) for n in ("_FG_COLOR_MASK", "_BG_COLOR_MASK", "_FG_MASK", "_BG_MASK", "_FG_BASIC_COLOR", "_BG_HIGH_COLOR", "_HIGH_88_COLOR", "_BOLD")]
+    masks += [~m for m in masks] + [K("_BG_HIGH_COLOR") | K("_FG_HIGH_COLOR")]
+    bad = []
+    for _ in range(3000):
+        x, y = rnd.getrandbits(62), rnd.getrandbits(62)
+        if rnd.random() < 0.5:
+            y &= rnd.choice(masks) & (2**62 - 1)
+        wx, wy = BitWord.of_int(x), BitWord.of_int(y)
+        if wx.to_int() != x:
+            bad.append(("to_int", x))
+        for m in masks:
+            if wx.and_const(m).to_int() != x & m:
+                bad.append(("and", x, m))
+        if wx.or_word(None, wy).to_int() != x | y:
+            bad.append(("or", x, y))
+        if bool(wx == wy) != (x == y) or bool(wx.py_truth(None)) != bool(x):
+            bad.append(("eq/truth", x, y))
+    return "bitword-operations-agree-with-cpython", not bad, f"3000 random words x {len(masks)} masks; mismatches: {bad[:3]}"
+
+
 ATTRSPEC = real_const("AttrSpec")
 WORD = "_AttrSpec__value"
-SPEC = Obj(ATTRSPEC, {WORD: Int})
+SPEC = Obj(ATTRSPEC, {WORD: WordShape()})
 STYLE_NAMES = ("_STANDOUT", "_UNDERLINE", "_BOLD", "_BLINK", "_ITALICS", "_STRIKETHROUGH")
 GETTERS = tuple(f"AttrSpec.{n}" for n in (
     "foreground_basic", "foreground_high", "foreground_true", "foreground_number", "background_basic", "background_high",
@@ -885,40 +1070,30 @@ GETTERS = tuple(f"AttrSpec.{n}" for n in (
 
 
 def word(s):
-    return s.fields[WORD]
-
-
-def field(v, mask):
-    """v & mask (mask a constant >= 0) in integer arithmetic."""
-    return and_mask_formula(v, mask)
+    w = s.fields[WORD]
+    return w if isinstance(w, BitWord) else BitWord.lift(cur(), w)
 
 
 def flag(v, name):
-    return field(v, K(name)) != 0
-
-
-def styles_mask():
-    m = 0
-    for n in STYLE_NAMES:
-        m |= K(n)
-    return m
-
-
-def fg_field_mask():
-    """Every bit the foreground setter may write: colour number, the three kind flags, the six settings."""
-    return K("_FG_COLOR_MASK") | K("_FG_BASIC_COLOR") | K("_FG_HIGH_COLOR") | K("_FG_TRUE_COLOR") | styles_mask()
-
-
-def bg_field_mask():
-    return K("_BG_COLOR_MASK") | K("_BG_BASIC_COLOR") | K("_BG_HIGH_COLOR") | K("_BG_TRUE_COLOR")
+    return v.parts[bit_index(name)] != 0
 
 
 def fg_number(v):
-    return field(v, K("_FG_COLOR_MASK"))
+    return v.parts[FG]
 
 
 def bg_number(v):
-    return field(v, K("_BG_COLOR_MASK")) // 2 ** K("_BG_SHIFT")
+    return v.parts[BG]
+
+
+def same_outside(v1, v0, names, numbers=()):
+    """Every field other than the named flag bits and number fields is the same in v1 and v0."""
+    skip = {bit_index(n) for n in names} | set(numbers)
+    return both(*[p == q for i, (p, q) in enumerate(zip(v1.parts, v0.parts)) if i not in skip])
+
+
+FG_OWN = ("_FG_BASIC_COLOR", "_FG_HIGH_COLOR", "_FG_TRUE_COLOR") + STYLE_NAMES
+BG_OWN = ("_BG_BASIC_COLOR", "_BG_HIGH_COLOR", "_BG_TRUE_COLOR")
 
 
 def side_wf(v, basic, high, true, number):
@@ -937,7 +1112,6 @@ def side_wf(v, basic, high, true, number):
 def wf(v):
     """Representation invariant of AttrSpec (what __init__ establishes and the accessors rely on)."""
     return both(
-        0 <= v, v < 2**62,
         neg(both(flag(v, "_HIGH_88_COLOR"), flag(v, "_HIGH_TRUE_COLOR"))),
         side_wf(v, flag(v, "_FG_BASIC_COLOR"), flag(v, "_FG_HIGH_COLOR"), flag(v, "_FG_TRUE_COLOR"), fg_number(v)),
         side_wf(v, flag(v, "_BG_BASIC_COLOR"), flag(v, "_BG_HIGH_COLOR"), flag(v, "_BG_TRUE_COLOR"), bg_number(v)),
@@ -961,10 +1135,6 @@ class attrspec_colors:
     params = {}
     result = Int
     raises = ()
-    deterministic = True
-
-    def requires(s, a):
-        return both(0 <= word(s), word(s) < 2**62)
 
     def ensures(old, s, a, result):
         v = word(s)
@@ -996,7 +1166,7 @@ class attrspec_eq:
 
 
 def hash_spec(v):
-    return mk_int(HASH_PAIR(z3.IntVal(V.atom_code("class:AttrSpec")), V._z(v)))
+    return mk_int(HASH_PAIR(z3.IntVal(V.atom_code("class:AttrSpec")), V._z(v.to_int() if isinstance(v, BitWord) else v)))
 
 
 @contract(DC + "AttrSpec.__hash__", property="C18", replayable=False)
@@ -1058,3 +1228,96 @@ class attrspec_rgb:
         for label, f in rgb_of_side(v, flag(v, "_BG_BASIC_COLOR"), flag(v, "_BG_HIGH_COLOR"), flag(v, "_BG_TRUE_COLOR"), bg_number(v), result[3:6]):
             yield "background-" + label, f
         yield "word-unchanged", word(s) == word(old)
+
+
+ATTRSPEC_ERROR = real_const("AttrSpecError")
+BASIC_NAMES = tuple(real_const("_BASIC_COLORS"))
+SETTING_NAMES = tuple(real_const("_ATTRIBUTES"))
+
+
+def is_default_name(s):
+    return either(cs_eq(s, ""), cs_eq(s, "default"))
+
+
+def basic_index(s):
+    """(is a basic colour name, its index)"""
+    hit, idx = False, 0
+    for j in range(len(BASIC_NAMES) - 1, -1, -1):
+        e = cs_eq(s, BASIC_NAMES[j])
+        hit, idx = either(hit, e), ite(e, j, idx)
+    return hit, idx
+
+
+def valid_palette_form(p, s):
+    """s is one of the documented high-colour forms, within the palette: hN, #rgb, g#XX, gN (N <= 100)."""
+    n, c0 = cs_len(s), cs_at(s, 0)
+    hwf, hv = digits_at(s, 1, 10, 3)
+    d = [cs_at(s, i) for i in (1, 2, 3)]
+    xwf, _xv = digits_at(s, 2, 16, 2)
+    gwf, gv = digits_at(s, 1, 10, 3)
+    return either(both(n <= 4, c0 == H, hwf, hv < p.colours), both(n == 4, c0 == HASH, *[is_hex(x) for x in d]),
+                  both(n <= 4, n >= 2, c0 == G, cs_at(s, 1) == HASH, xwf), both(n <= 4, c0 == G, gwf, gv <= 100))
+
+
+def is_rrggbb(s):
+    return both(cs_len(s) == 7, cs_at(s, 0) == HASH, *[is_hex(cs_at(s, i)) for i in range(1, 7)])
+
+
+def colour_part_clauses(v0, s, kind_basic, kind_high, kind_true, number):
+    """How one colour description s (not a setting) is stored: kind flags and number, by the mode bits of v0."""
+    m88, mtrue = flag(v0, "_HIGH_88_COLOR"), flag(v0, "_HIGH_TRUE_COLOR")
+    default = is_default_name(s)
+    basic, bidx = basic_index(s)
+    named = either(default, basic)
+    yield "default-or-empty-stores-no-colour", implies(default, both(neg(kind_basic), neg(kind_high), neg(kind_true), number == 0))
+    yield "a-basic-name-stores-its-index-as-a-basic-colour", implies(basic, both(kind_basic, neg(kind_high), neg(kind_true), number == bidx))
+    yield "other-colours-are-high-or-true-by-the-declared-depth", implies(neg(named), both(neg(kind_basic), kind_true == mtrue, kind_high == neg(mtrue)))
+    stored = V.SOpt(z3.BoolVal(False), number)
+    for label, f in parse_spec_clauses(P88, s, stored):
+        yield "at-88-colours-" + label, implies(both(neg(named), m88), f)
+    for label, f in parse_true_clauses(s, stored):
+        yield "at-true-colour-" + label, implies(both(neg(named), neg(m88), mtrue), f)
+    six = [cs_at(s, i) for i in range(1, 7)]
+    hi = [T(P256.lookup16, digit_val(x, 16)) for x in (six[0], six[2], six[4])]
+    yield "at-256-colours-hash-rrggbb-is-the-cube-colour-nearest-to-its-high-digits", implies(both(neg(named), neg(m88), neg(mtrue), is_rrggbb(s)), number == cube_number(P256, *hi))
+    for label, f in parse_spec_clauses(P256, s, stored):
+        yield "at-256-colours-" + label, implies(both(neg(named), neg(m88), neg(mtrue), neg(is_rrggbb(s))), f)
+
+
+def rejected_part_clauses(v0, s):
+    """What may be said of a colour description that was rejected."""
+    m88, mtrue = flag(v0, "_HIGH_88_COLOR"), flag(v0, "_HIGH_TRUE_COLOR")
+    yield "default-and-basic-names-are-never-rejected", both(neg(is_default_name(s)), neg(basic_index(s)[0]))
+    yield "valid-88-colour-forms-are-never-rejected", implies(m88, both(neg(valid_palette_form(P88, s)), neg(is_rrggbb(s))))
+    yield "valid-256-colour-forms-are-never-rejected", implies(neg(m88), both(neg(valid_palette_form(P256, s)), neg(is_rrggbb(s))))
+
+
+def mode_ok(v):
+    return neg(both(flag(v, "_HIGH_88_COLOR"), flag(v, "_HIGH_TRUE_COLOR")))
+
+
+@contract(DC + "AttrSpec.__set_background", property="C18", replayable=False)
+class attrspec_set_background:
+    self_shape = SPEC
+    params = dict(background=Str())
+    raises = (ATTRSPEC_ERROR,)
+    modifies = (WORD,)
+    setup = staticmethod(tables_setup)
+    call_real = staticmethod(cstr_call_real)
+    static_checks = [_layout_matches_module, _xcheck_bitword]
+
+    def requires(s, a):
+        return mode_ok(word(s))
+
+    def ensures(old, s, a, result):
+        v0, v1 = word(old), word(s)
+        yield "only-the-background-bit-fields-change", same_outside(v1, v0, BG_OWN, (BG,))
+        fresh = neg(flag(v0, "_BG_TRUE_COLOR"))  # the one background bit the setter never clears (as in __init__: word is new)
+        kb, kh, kt = flag(v1, "_BG_BASIC_COLOR"), flag(v1, "_BG_HIGH_COLOR"), flag(v1, "_BG_TRUE_COLOR")
+        yield "the-background-side-is-well-formed", implies(fresh, side_wf(v1, kb, kh, kt, bg_number(v1)))
+        for label, f in colour_part_clauses(v0, a.background, kb, kh, kt, bg_number(v1)):
+            yield label, implies(fresh, f)
+
+    def on_raise(old, s, a, exc):
+        yield "word-unchanged-when-rejected", word(s) == word(old)
+        yield from rejected_part_clauses(word(old), a.background)
